@@ -153,7 +153,7 @@ Theorem read_entry_is_floor iv rq start ops o s o' :
   forall e', In e' (s_entries s) -> ie_off e' <= o' -> ie_off e' <= ie_off e.
 Proof.
   intros Hv l Hfs. assert (Hi : inv start l) by (apply inv_run; [exact Hv|apply inv_init]).
-  destruct Hi as [Hc _ Hs _]. rewrite live_eq in Hc.
+  destruct Hi as [Hc _ Hs _ _ _]. rewrite live_eq in Hc.
   apply find_segment_some in Hfs as (A & B & Esegs & _ & Ho').
   rewrite Esegs in Hs. apply Forall_app in Hs as [_ HsB]. inversion HsB as [|? ? [Hne (c & r & Hseg)] _]; subst.
   rewrite Esegs, seg_batches_app, seg_batches_cons in Hc. rewrite <- !app_assoc in Hc.
